@@ -97,16 +97,17 @@ type pathOpts struct {
 }
 
 type pathEngine struct {
-	w       *World
-	opts    pathOpts
-	events  []Event
-	atoms   []Atom
-	blocks  []*ssa.BasicBlock
-	count   int
-	over    bool
-	visit   func(p *Path)
-	root    *Frame
-	atomSet map[*ssa.If]bool
+	w         *World
+	opts      pathOpts
+	events    []Event
+	atoms     []Atom
+	blocks    []*ssa.BasicBlock
+	count     int
+	over      bool
+	visit     func(p *Path)
+	root      *Frame
+	atomSet   map[*ssa.If]bool
+	foldArith bool
 }
 
 var errTooManyPaths = fmt.Errorf("path cap exceeded")
@@ -259,6 +260,20 @@ func (e *pathEngine) walkInstrs(fr *Frame, b *ssa.BasicBlock, idx int, en *env, 
 				// prune constant conditions
 				if cv, ok := e.evalCond(Val{x.Cond, fr, en}); ok && cv != pol {
 					continue
+				}
+				// a counting loop whose first test folds (index phi(-1)+1 < 3): the exit taken before the
+				// body ever ran is infeasible. Only that: forcing later iterations would need more
+				// unrolling than the engine does.
+				if len(b.Succs) == 2 {
+					other := b.Succs[1-si]
+					if fr.visits[other.Index] == 0 && fr.visits[succ.Index] == 0 {
+						e.foldArith = true
+						cv, ok := e.evalCond(Val{x.Cond, fr, en})
+						e.foldArith = false
+						if ok && cv != pol && e.leavesLoopOf(b, succ, other) {
+							continue
+						}
+					}
 				}
 				// prune a branch that contradicts an atom already taken on this path for the same value instance
 				en2 := en
@@ -730,8 +745,15 @@ func (e *pathEngine) evalCond(v Val) (bool, bool) {
 			}
 		}
 	}
-	x, okx := constInt(e.resolve(Val{bin.X, r.F, r.E}).V)
-	y, oky := constInt(e.resolve(Val{bin.Y, r.F, r.E}).V)
+	var x, y int64
+	var okx, oky bool
+	if e.foldArith {
+		x, okx = e.evalInt(Val{bin.X, r.F, r.E}, 0)
+		y, oky = e.evalInt(Val{bin.Y, r.F, r.E}, 0)
+	} else {
+		x, okx = constInt(e.resolve(Val{bin.X, r.F, r.E}).V)
+		y, oky = constInt(e.resolve(Val{bin.Y, r.F, r.E}).V)
+	}
 	if !okx || !oky {
 		return false, false
 	}
@@ -814,7 +836,6 @@ func (e *pathEngine) atomKey(c Val, pol bool) (atomKeyT, bool, bool) {
 	}
 	return atomKeyT{}, false, false
 }
-
 
 // localStruct: al is a struct variable whose address never leaves its function: every use is a
 // field address that is only stored to / loaded from, or a load/store of the whole value.
@@ -904,7 +925,6 @@ func (e *pathEngine) structField(sv Val, idx int, depth int) (Val, bool) {
 	return e.allocField(Val{al, base.F, base.E}, al, idx, depth)
 }
 
-
 // goTargetsOn: the functions a go statement starts on this path: when the spawned function value
 // resolves on the path to one function or closure (a method value chosen by a helper), that one;
 // otherwise every target of the call graph.
@@ -921,4 +941,37 @@ func (p *Path) goTargetsOn(ev Event, g *ssa.Go) []*ssa.Function {
 		}
 	}
 	return w.goTargets(g)
+}
+
+// evalInt folds an integer expression whose leaves resolve to constants on this path (the index
+// of a range-over-array loop in its first iterations: phi(-1) + 1).
+func (e *pathEngine) evalInt(v Val, depth int) (int64, bool) {
+	r := e.resolve(v)
+	if k, ok := constInt(r.V); ok {
+		return k, true
+	}
+	if depth > 3 {
+		return 0, false
+	}
+	if b, ok := r.V.(*ssa.BinOp); ok && (b.Op == token.ADD || b.Op == token.SUB) {
+		x, okx := e.evalInt(Val{b.X, r.F, r.E}, depth+1)
+		y, oky := e.evalInt(Val{b.Y, r.F, r.E}, depth+1)
+		if okx && oky {
+			if b.Op == token.ADD {
+				return x + y, true
+			}
+			return x - y, true
+		}
+	}
+	return 0, false
+}
+
+// leavesLoopOf: b is the header of a natural loop, `out` leaves it and `in` stays inside.
+func (e *pathEngine) leavesLoopOf(b, out, in *ssa.BasicBlock) bool {
+	for _, l := range naturalLoops(b.Parent()) {
+		if l.Header == b && l.Blocks[in] && !l.Blocks[out] {
+			return true
+		}
+	}
+	return false
 }
